@@ -14,7 +14,22 @@ CASE_TIMEOUT = 300.0
 
 def gen_cases(tier, seed):
     fams = ["cpu-mix", "cpu-mix", "cpu-mix", "exact-dag", "exact-chain", "approx-tail", "alias-stress", "hostile"]
-    return campaign.gen_cases(tier, seed, 11, 420, 10000, families=fams)
+    cases = campaign.gen_cases(tier, seed, 11, 420, 10000, families=fams)
+    # every builtin operator of the hostile generator's lists (33 unary, 21 binary; each with its own options table type) once as a CPU-resident
+    # float32 instance: the writer's operator -> options-table mapping is walked entry by entry, not sampled
+    from vv import hostile
+
+    for rep in range(1 if tier == "quick" else 6):
+        for k in range(len(hostile.UNARY) + len(hostile.BINARY)):
+            unary = k < len(hostile.UNARY)
+            c0 = dict(cases[(k * 7 + rep) % len(cases)])
+            cases.append({"family": "hostile", "nseed": int(seed * 1000003 + 900000 + rep * 1000 + k), "cfg": c0["cfg"], "hkind": 0 if unary else 1,
+                          "hpick": k if unary else k - len(hostile.UNARY)})
+    # quantisation tables that are present but incomplete or odd (kinds 5 and 13 of the hostile generator): interface tensors and CPU operands must keep them verbatim
+    for k in range(36 if tier == "quick" else 600):
+        c0 = dict(cases[(k * 11) % len(cases)])
+        cases.append({"family": "hostile", "nseed": int(seed * 1000003 + 950000 + k), "cfg": c0["cfg"], "hkind": 13 if k % 3 else 5})
+    return cases
 
 
 _opt_names = None
